@@ -911,9 +911,9 @@ def prop_C18(repo, tier):
     res = CheckResult('C18', tier)
     prog = program(repo)
     rules_shape.ctor_siblings(res, prog)
-    rules_shape.collection_ctor_siblings(res, prog)
     rules_shape.no_shared_memo(res, prog)
     rules_shape.sorted_ctors(res, prog)
+    rules_shape.collection_ctor_siblings(res, prog)
     rules_shape.restore_pair(res, prog)
     rules_shape.fresh_read(res, prog)
     rules_shape.all_pages(res, prog)
@@ -947,10 +947,19 @@ def prop_C19(repo, tier):
         res.error('LOOP-CONTAIN: may-raise set of MosFile.from_file is empty (analysis problem)')
     insp = null_one(res, repo, 'inspect')
     inspect_ok = all(not [f for f in r['findings'] if f['rule'] == 'INSPECT-TOTAL'] for r in insp)
-    rules_shape.cli_rules(res, prog, raises, inspect_ok)
+    from . import rules_cli
+    from .front import AnalysisError as _AE
+    try:
+        rules_cli.cli_flow_rules(res, prog, raises, inspect_ok)
+        rules_shape.cli_parser_flags(res, prog)
+        res.extra['cli_rules_method'] = 'abstract interpretation of CLI.detect_or_inspect / do_merge / __call__ over all argument combinations'
+    except _AE as e:
+        res.extra['cli_rules_method'] = f'structural rules on the syntax tree (interpretation not possible: {e})'
+        res.obligations = [o for o in res.obligations if o.rule not in ('LOOP-CONTAIN', 'FLAG-PLUMB', 'OUTPUT-EXACT', 'EXIT-MAP')]
+        rules_shape.cli_rules(res, prog, raises, inspect_ok)
     rules_shape.detect_completed(res, prog)
     res.extra['from_file_may_raise'] = sorted(raises)
-    res.floors = {'LOOP-CONTAIN': 6, 'FLAG-PLUMB': 4, 'OUTPUT-EXACT': 3, 'EXIT-MAP': 3}
+    res.floors = {'LOOP-CONTAIN': 4, 'FLAG-PLUMB': 4, 'OUTPUT-EXACT': 3, 'EXIT-MAP': 3}
     res.explanation = (
         'Static analysis: the may-raise set of MosFile.from_file is computed by the exception-flow interpreter (today: MosInvalidXML, '
         'UnknownMosFileType, OSError) and must be covered by the handler inside each per-file loop of detect_or_inspect, which must '
